@@ -439,10 +439,10 @@ PROPS = {
                    "(Checked*, Wrapping*, Overflowing*, Saturating*, Euclid) forward to the right inherent method with the right arguments in the right order: the bodies are re-extracted from the macro-expanded crate "
                    "(rustc -Zunpretty=expanded) on every run and checked against uninterpreted spec functions of the inherent methods; Kani adds per-width equality for the Bits wrapper, the remaining num-traits / num-integer "
                    "methods, the subtle constant-time forms and zeroize",
-        level_note="macro expansion is rustc's (trusted); N15 places trait-impl methods in an inherent impl under mangled names; commutative operations accept either argument order; NOT under Verus: Bits wrapper, bit-op / shift "
+        level_note="the Uint-typed shift operators (Shl<Uint>, Shr<Uint> and the three shapes forwarding to them) have no inherent counterpart; their contract (value * 2^s mod 2^BITS resp. floor(value / 2^s) for an amount of ANY magnitude) is proved in unit shifts, which is part of this property's closure; macro expansion is rustc's (trusted); N15 places trait-impl methods in an inherent impl under mangled names; commutative operations accept either argument order; NOT under Verus: Bits wrapper, bit-op / shift "
                    "operator families (Kani per width in C05/C06), PrimInt/ToPrimitive/FromPrimitive, num-integer, subtle (Kani per width, expensive ones only at 7-8 bits); known finding: subtle bit_ct panics for index >= BITS",
         technique="deductive forwarding contracts over uninterpreted spec functions (Verus, all widths) + Kani per-width equality harnesses",
-        units=["forward", "forward_shift"],
+        units=["forward", "forward_shift", "shifts"],
         kani=dict(features="facades", quick=hs("c20", None, r"^c20::kf_"), thorough=hs("c20", None, r"^c20::kf_"), bounds="see kani/src/c20.rs"),
         known_findings={"subtle_bit_ct_out_of_range": ["c20::kf_c20_subtle_bit_ct_out_of_range_w65"]},
         explanation="a swapped argument, a forward to the wrong variant or *self vs *other breaks r == spec_m(args)",
